@@ -102,7 +102,7 @@ Eval cbv in "ASSUMPTIONS-OF C02_render_refines_deep_merge"%string. Print Assumpt
     conflict and no constant violation. *)
 Theorem C02_stack_with_references_renders_as_its_inlined_twin :
   forall F ys ys' m r,
-    Forall clean_layer ys -> Forall clean_layer ys' ->
+    Forall sclean_layer ys -> Forall sclean_layer ys' ->
     merge_layers_try ys = Ok m -> Forall2 (ytw m) ys ys' ->
     render_with_self F (VMap m) = Ok r ->
     exists m', merge_layers_try ys' = Ok m' /\ render_with_self (S F) (VMap m') = Ok r.
@@ -111,7 +111,7 @@ Eval cbv in "ASSUMPTIONS-OF C02_stack_with_references_renders_as_its_inlined_twi
 
 Theorem C02_stack_with_references_is_the_deep_merge_of_its_inlined_twin :
   forall f F ys ys' m r,
-    Forall clean_layer ys -> ys' <> [] -> Forall layer_ok ys' ->
+    Forall sclean_layer ys -> ys' <> [] -> Forall layer_ok ys' ->
     merge_layers_try ys = Ok m -> Forall2 (ytw m) ys ys' ->
     render_with_self F (VMap m) = Ok r ->
     match deep_merge (S f) ys' with
@@ -130,11 +130,11 @@ Example C02_twin_stack_premises_hold :
   let l3 := YMap [(YStr "t", YMap [(YStr "n", a 3%Z)])] in
   let ys := [l1; YMap [(YStr "t", YMap [(YStr "n", YStr "${h}")])]; l3] in
   let ys' := [l1; YMap [(YStr "t", YMap [(YStr "n", a 2%Z)])]; l3] in
-  Forall clean_layer ys /\ Forall layer_ok ys' /\
+  Forall sclean_layer ys /\ Forall layer_ok ys' /\
   exists m r v, merge_layers_try ys = Ok m /\ Forall2 (ytw m) ys ys' /\
                 render_with_self 60 (VMap m) = Ok r /\ deep_merge 10 ys' = SOk v /\ unflag r = v.
 Proof.
-  cbn zeta. split; [prove_layer_ok|]. split; [prove_layer_ok|].
+  cbn zeta. split; [eapply Forall_impl; [intros y0; apply clean_layer_sclean | prove_layer_ok]|]. split; [prove_layer_ok|].
   eexists. eexists. eexists. split; [vm_compute; reflexivity|]. split.
   - constructor; [apply ytw_refl|]. constructor; [|constructor; [apply ytw_refl | constructor]].
     apply ytw_map_iff. eexists. split; [reflexivity|]. constructor; [|constructor]. split; [reflexivity|]. cbn [snd].
